@@ -35,7 +35,7 @@ OBLIGATIONS = {"bias:standard": 50, "bias:normalised": 50, "bias:log": 50,
                "nse": 50, "kge": 50, "corr:Pearson:mean": 30,
                "corr:Pearson:median": 30, "corr:Spearman:mean": 30,
                "corr:Spearman:median": 30, "excludenull:nan": 30,
-               "excludenull:inf": 30, "excludenull:transform-nan": 20,
+               "excludenull:inf": 30, "excludenull:transform-nan": 20, "excludenull:corr": 10,
                "trans:Log": 20, "trans:BoxCox2": 20, "trans:Reciprocal": 20,
                "trans:Sinh": 20, "perfect": 30, "meansim": 20,
                "cm:inferred": 30, "cm:given": 30, "cm:absent-category": 20,
@@ -317,6 +317,30 @@ def run_corr_case(ctx, case):
                       lambda: {"got": repr(got), "ref": ref, "trans": case["trans"]})
             if isinstance(got, float) and math.isfinite(got) and got not in (0., 1.):
                 ctx.nontrivial("corr", obs, ens, typ, stat, repr(case["trans"]))
+    # excludenull: rows whose ensemble statistic is not finite after the transform
+    if case.get("nullrows") is not None and len(obs) >= 6:
+        ens2 = ens.copy()
+        rows = np.asarray(case["nullrows"], dtype=int)
+        ens2[rows, :] = case.get("nullvalue", np.nan)
+        with np.errstate(all="ignore"):
+            te2 = np.asarray(trans.forward(ens2), dtype=float)
+        ts2 = np.nanmean(te2, axis=1) if np.isfinite(te2).any() else te2[:, 0]
+        with warnings.catch_warnings():
+            warnings.simplefilter("ignore")
+            ts2 = np.array([np.nanmean(r) if np.isfinite(r).any() else np.nan
+                            for r in te2])
+        okr = np.isfinite(to) & np.isfinite(ts2)
+        if okr.sum() >= 4 and (~okr).any() and np.std(ts2[okr]) > 0:
+            ctx.tag("excludenull:corr")
+            got = call(m.corr, obs, ens2, trans, True, "mean", "Pearson")
+            ref = ref_pearson(to[okr].tolist(), ts2[okr].tolist())
+            c = cond(to[okr])
+            cs = cond(ts2[okr])
+            if c is not None and cs is not None:
+                ctx.check("corr.excludenull", eq(got, ref, 1e-9 * (c + cs)),
+                          "corr|excludenull", case,
+                          lambda: {"got": repr(got), "ref": ref,
+                                   "rows_removed": int((~okr).sum())})
     # commutes with the transform
     ident = T().Identity()
     a = call(m.corr, obs, ens, trans, False, "mean", "Pearson")
@@ -514,8 +538,11 @@ def run(ctx):
             ens = obs[:, None] * np.exp(rng.normal(size=(n, p)) * 0.3)
         else:
             ens = obs[:, None] + rng.normal(size=(n, p)) * 1.5
+        nullrows = rng.choice(n, size=max(1, n // 8), replace=False) if n >= 8 else None
         run_corr_case(ctx, {"kind": "corr", "obs": obs, "ens": ens,
-                            "trans": [tnm, tkw]})
+                            "trans": [tnm, tkw], "nullrows": nullrows,
+                            "nullvalue": [float("nan"), float("inf"),
+                                          -1e6][it % 3]})
         # identities / invariances
         a = float(rng.choice([-3.0, -0.5, 0.25, 2.0, 7.5]))
         b = float(rng.normal() * 10)
